@@ -6,6 +6,8 @@ From RV Require Tsg.SafeguardDriver.
 From RV Require Store.StoreDriver.
 From RV Require Out.OutDriver.
 From RV Require Irc.IrcDriver.
+From RV Require Api.ApiDriver.
+From RV Require Fsm.FsmDriver.
 Local Open Scope string_scope.
 
 Definition run_line (l : string) : string :=
@@ -19,6 +21,11 @@ Definition run_line (l : string) : string :=
   else if String.eqb k "outs" then Out.OutDriver.run_line f
   else if String.eqb k "res" then Out.OutDriver.run_line f
   else if String.eqb k "irc" then Irc.IrcDriver.run_line f
+  else if String.eqb k "api" then Api.ApiDriver.run_line f
+  else if String.eqb k "post" then Api.ApiDriver.run_line f
+  else if String.eqb k "cfg" then Api.ApiDriver.run_line f
+  else if String.eqb k "uint" then Api.ApiDriver.run_line f
+  else if String.eqb k "fsm" then Fsm.FsmDriver.run_line f
   else "unknown-case-kind".
 
 Definition run (input : string) : string :=
